@@ -336,7 +336,10 @@ def run_case(case, stats):
                 barrier.wait(timeout=20)
                 for _ in range(3):
                     for ei, what, prefix in reqs:
-                        name = request(engines1[ei], _spec(engines_spec[ei])[0], what, prefix)
+                        # duplicating an engine while other threads use it is a race in the *caller*: with free-running
+                        # threads the clone requests are plain name requests (the scheduled driver, where a request runs
+                        # atomically between yield points, issues them as they are)
+                        name = request(engines1[ei], _spec(engines_spec[ei])[0], "name" if what in ("clone", "deepclone") else what, prefix)
                         if name is None:
                             continue
                         with lock:
